@@ -176,7 +176,9 @@ def correspondence(ctx):
 
 
 def search(ctx):
-    correspondence(ctx)
+    if ctx.quick and not ctx.violations:  # a different seeded sample; the thorough tier already ran the whole grid
+        ctx.rng.random()
+        correspondence(ctx)
 
 
 def replay(ctx, rep):
